@@ -739,6 +739,127 @@ static void run_gather_scatter_unsigned()
     }
 }
 
+// ---- gather / scatter through a pointer into the MIDDLE of the table (negative and positive signed indices), for every
+// element type U of the table: batch<T>::gather(U const*, index) converts every indexed element to T, scatter(U*, index)
+// converts every lane to U. Values are small integers (exactly representable in every type), all distinct. ----
+template <class T, class U>
+static void run_gather_scatter_mid()
+{
+    g_section = "gather/scatter (signed indices around a mid-table pointer, converting)";
+    using I = xs::as_integer_t<T>;
+    const long n = (long)B<T>::size;
+    const long half = n < 60 ? n + 2 : 62; // int8 indices: [-62, 62)
+    const long tab = 2 * half;
+    const size_t F = (size_t)tab * sizeof(U);
+    uint64_t cnt = 0;
+    std::vector<std::vector<long>> V;
+    {
+        std::vector<long> v((size_t)n);
+        for (long i = 0; i < n; ++i)
+            v[(size_t)i] = i - n / 2; // a window across zero
+        V.push_back(v);
+        for (long i = 0; i < n; ++i)
+            v[(size_t)i] = -1 - (i % half); // all negative
+        V.push_back(v);
+        for (long i = 0; i < n; ++i)
+            v[(size_t)i] = (i % 2) ? -half + (i % half) : half - 1 - (i % half); // alternating ends
+        V.push_back(v);
+        for (long j = -half; j < half; ++j)
+            V.push_back(std::vector<long>((size_t)n, j)); // every index value in every lane
+        for (long i = 0; i < n; ++i) // one lane deviates to each end
+            for (long j : { -half, -1L, 0L, half - 1 })
+            {
+                std::vector<long> w((size_t)n);
+                for (long k = 0; k < n; ++k)
+                    w[(size_t)k] = (k % half);
+                w[(size_t)i] = j;
+                V.push_back(w);
+            }
+    }
+    unsigned char* bases[3] = { g_hi - F, g_lo, g_mid - F / 2 };
+    for (unsigned char* base : bases)
+    {
+        U* table = (U*)base;
+        U* mid = table + half;
+        for (auto& iv : V)
+        {
+            ++cnt;
+            fill_arena(11);
+            U tv[128];
+            for (long e = 0; e < tab; ++e)
+                tv[e] = table[e] = (U)(e + 1); // 1..124: exact in every element type
+            I idx[64];
+            for (long i = 0; i < n; ++i)
+                idx[i] = (I)iv[(size_t)i];
+            xs::batch<I, A> bi = xs::batch<I, A>::load_unaligned(idx);
+            g_armed = 1;
+            asm volatile("" ::: "memory");
+            if (sigsetjmp(g_env, 1))
+            {
+                violation("gather (mid-table, converting)", std::string(tn<T>::name()) + "<-" + tn<U>::name(), "faulted at byte " + std::to_string((long)((unsigned char*)g_fault_addr - base)) + " relative to a table of " + std::to_string(F) + " bytes");
+                continue;
+            }
+            B<T> g = B<T>::gather((U const*)mid, bi);
+            asm volatile("" ::: "memory");
+            g_armed = 0;
+            T got[64];
+            g.store_unaligned(got);
+            for (long i = 0; i < n; ++i)
+                if (got[i] != (T)tv[half + iv[(size_t)i]])
+                {
+                    violation("gather (mid-table, converting)", std::string(tn<T>::name()) + "<-" + tn<U>::name(), "lane " + std::to_string(i) + " does not hold the table element at signed index " + std::to_string(iv[(size_t)i]));
+                    break;
+                }
+            T lanes[64];
+            for (long i = 0; i < n; ++i)
+                lanes[i] = (T)(0x40 + i % 60);
+            B<T> sv = B<T>::load_unaligned(lanes);
+            g_armed = 1;
+            asm volatile("" ::: "memory");
+            if (sigsetjmp(g_env, 1))
+            {
+                violation("scatter (mid-table, converting)", std::string(tn<T>::name()) + "->" + tn<U>::name(), "faulted at byte " + std::to_string((long)((unsigned char*)g_fault_addr - base)) + " relative to a table of " + std::to_string(F) + " bytes");
+                continue;
+            }
+            sv.scatter(mid, bi);
+            asm volatile("" ::: "memory");
+            g_armed = 0;
+            for (long e = 0; e < tab; ++e)
+            {
+                bool indexed = false, match = false;
+                for (long i = 0; i < n; ++i)
+                    if (half + iv[(size_t)i] == e)
+                    {
+                        indexed = true;
+                        if (table[e] == (U)lanes[i])
+                            match = true;
+                    }
+                if (indexed ? !match : memcmp(&table[e], &tv[e], sizeof(U)) != 0)
+                {
+                    violation("scatter (mid-table, converting)", std::string(tn<T>::name()) + "->" + tn<U>::name(), indexed ? "table element at signed index " + std::to_string(e - half) + " does not hold the converted value of a lane that targets it" : "table element at signed index " + std::to_string(e - half) + " was modified although no lane indexes it");
+                    break;
+                }
+            }
+            unsigned char* a = base - 160 < g_lo ? g_lo : base - 160;
+            unsigned char* z = base + F + 160 > g_hi ? g_hi : base + F + 160;
+            for (unsigned char* q = a; q < z; ++q)
+                if ((q < base || q >= base + F) && *q != pat((size_t)(q - g_lo), 11))
+                {
+                    violation("scatter (mid-table, converting)", std::string(tn<T>::name()) + "->" + tn<U>::name(), "a byte outside the table was modified");
+                    break;
+                }
+        }
+    }
+    R.states += cnt;
+    R.transitions += cnt * (uint64_t)(n + tab);
+    R.per_op[std::string("gather/scatter(mid-table)<") + tn<T>::name() + "," + tn<U>::name() + ">"] += cnt;
+}
+template <class T, class... Us>
+static void run_gather_scatter_mid_all()
+{
+    (run_gather_scatter_mid<T, Us>(), ...);
+}
+
 // ---- broadcast and element-list constructor ----
 template <class T, size_t... I>
 static B<T> from_list(const T* v, std::index_sequence<I...>) { return B<T>(v[I]...); }
@@ -791,6 +912,7 @@ static void run_type()
     run_bool<T>();
     run_gather_scatter<T>();
     run_gather_scatter_unsigned<T>();
+    run_gather_scatter_mid_all<T, int8_t, uint8_t, int16_t, uint16_t, int32_t, uint32_t, int64_t, uint64_t, float, double>();
     run_fill<T>();
     run_convert_from<T, int8_t, uint8_t, int16_t, uint16_t, int32_t, uint32_t, int64_t, uint64_t, float, double>();
 }
